@@ -60,6 +60,7 @@ type Device struct {
 	RenderAll bool
 	FailCall  map[int]error // fail the k-th Set call (0-based) with this error
 	SetHook   func(call int) // called at the start of each Set (scheduling seam)
+	Log       *CallLog       // if set, Set calls take part in the world's global call numbering and fault plan
 	SyncFeed  func(ctx context.Context, cfg *config.Sync, ch chan *target.SyncUpdate)
 }
 
@@ -169,6 +170,10 @@ func (d *Device) Set(ctx context.Context, source target.TargetSource) (*sdcpb.Se
 	if err, ok := d.FailCall[idx]; ok {
 		call.Failed = true
 		return nil, err
+	}
+	if d.Log != nil && d.Log.next("target.Set", "") {
+		call.Failed = true
+		return nil, ErrInjected
 	}
 	r := Render(ctx, source, d.RenderAll)
 	if d.RenderAll {
